@@ -1,12 +1,41 @@
 (** C03 — Unit conversion factors are mutually consistent and anchored to CODATA.
     Model: Model/Units.v ([conv_ctx c a b] = PhysicalConstantsContext(c).conversion_factor(a, b) on unit expressions
     already resolved to pint's canonical (prefix, unit) atoms; registry regenerated from ureg.py on every run;
-    plain SI/imperial units and the prefix table are trusted data read from the installed pint).
-    [emag]/[edim] are the plain algebraic meaning of an expression (product of powers of SI magnitudes). *)
+    plain SI/imperial units and the prefix table are trusted data read from the installed pint), Model/UnitsText.v (the
+    reader of unit TEXT), Model/UnitsGlue.v (the glue of conversion_factor: str / Quantity arguments, functools.lru_cache).
+    [emag]/[edim] are the plain algebraic meaning of an expression (product of powers of SI magnitudes).
+
+    CLAUSE MAP (statement of C03 in properties.jsonl -> theorems here; "corr" = correspondence/oracle only)
+    1. same dimension: factor = ratio of SI magnitudes under the selected set
+         C03_same_dimension_is_SI_ratio, C03_parse_is_algebraic (ALL expressions, both sets); magnitudes anchored to CODATA:
+         C03_anchored, C03_anchored_misc, C03_au_units_consistent (finite tables).  On the TEXT users type: only
+         C03_text_reader_examples (symbols, juxtaposition, precedence: pinned instances) + corr text stream (the model reads
+         the same strings as the implementation); a render/parse round trip for all expressions is still MISSING.
+    2. 1 on the diagonal, reciprocal, multiplicative along chains: C03_diagonal, C03_reciprocal, C03_chain (ALL expressions).
+    3. linear in a numeric prefactor written into either expression: C03_linear_in_source_prefactor /
+         C03_linear_in_target_prefactor (same dimension) and, wave 3, C03_linear_source_all_paths / C03_linear_target_all_paths
+         (EVERY conversion: same dimension, every bridge, every error; expressions without a zero power).
+    4. bridges to/from hartree reproduce NIST's published relationship values: C03_nist_bridges (exact, 9 unit pairs),
+         C03_relationships_reproduced (all 56 published relationships per set), wave 3 C03_unprefixed_nist_source_any_target
+         (an unprefixed NIST unit to EVERY target expression goes through the published value exactly once).
+    5. every other bridged conversion agrees with E = h nu = h c / lambda = m c^2 = k T (and N_A) to CODATA precision:
+         C03_default_route_bridge + C03_bridge_constants_are_physics + C03_all_named_bridges_covered (sources naming no NIST
+         unit, ALL source and target expressions), C03_relationships_consistent_with_physics (the published values themselves).
+         FALSE for SI-prefixed NIST sources: C03_prefixed_bridge_refuted, C03_prefixed_bridge_characterised (known finding).
+         energy <-> energy/mol (N_A hops): corr only (model + oracle), no separate theorem beyond the linearity laws.
+    6. a -> b then b -> a gives 1: same dimension C03_reciprocal; bridges, wave 3: C03_published_roundtrip (every published
+         pair of opposite relationships), C03_default_route_roundtrip (ALL expressions naming no NIST unit, both directions).
+    7. unrelated dimensions raise: C03_unrelated_dims_error, C03_number_only_if_dimension_reached (ALL expressions).
+    8. entry points (observe_at): conversion_factor(str | Quantity, str | Quantity) with functools.lru_cache — wave 3:
+         C03_str_entry_point_is_text_model, C03_cache_transparent (any history of calls whose keys are stable),
+         C03_cache_transparent_str_history (EVERY history of str calls), C03_cache_stable_same_dimension (Quantity keys, same
+         dimension), C03_cache_poisoned_refuted (Quantity keys across a bridge: the known finding leaks to an UNPREFIXED
+         request through the cache).  Datum.to_units, the default singleton, covalentradii.get(units=...) (C17): corr only.
+    9. state: the lazily built registry [_ureg] per context object: corr only (history streams on fresh and long-lived objects). *)
 From Coq Require Import ZArith QArith Qpower Qabs List String Bool.
 Require Import QV.Common.Outcome QV.Common.DecC02 QV.Common.UnitsC03.
 Require Import QV.Gen.Codata2014 QV.Gen.Codata2018 QV.Gen.UregDefs.
-Require Import QV.Model.Units QV.Model.UnitsText QV.Proofs.Units.
+Require Import QV.Model.Units QV.Model.UnitsText QV.Model.UnitsGlue QV.Proofs.Units QV.Proofs.UnitsGlue.
 Import ListNotations.
 Open Scope string_scope.
 Open Scope Q_scope.
@@ -373,6 +402,92 @@ Qed.
 Theorem C03_all_named_bridges_covered : List.length physics_constants = List.length named_edges.
 Proof. vm_compute. reflexivity. Qed.
 
+
+(** ** Wave 3.  Numeric prefactors on EVERY path: same dimension, each bridge (published relationship or default route, one or
+    two hops), and every error — [k a -> b] is k times [a -> b] and [a -> k b] is 1/k times [a -> b]; an error stays the same
+    error.  ([pow0free]: no [** 0] in the scaled expression, so that pint's unit container has no zero-exponent entry.) *)
+Theorem C03_linear_source_all_paths : forall c k a b, pow0free a = true ->
+  scaled_by k (conv_ctx c a b) (conv_ctx c (UMul (UNum k) a) b).
+Proof. intros c. exact (linear_source_all_paths (reg c) (nist c)). Qed.
+
+Theorem C03_linear_target_all_paths : forall c k a b, pow0free b = true -> ~ k == 0 ->
+  scaled_by (/ k) (conv_ctx c a b) (conv_ctx c a (UMul (UNum k) b)).
+Proof. intros c. exact (linear_target_all_paths (reg c) (nist c)). Qed.
+
+(** ** An unprefixed NIST-relationship unit as source (hartree, joule, eV to frequency / wavenumber / mass / temperature; Hz, K, u, kg to
+    energy): whatever the target expression t of the bridged dimension, the factor is the PUBLISHED relationship value times the SI
+    magnitude of the relationship's right-hand unit over the SI magnitude of t — the published value is used exactly once. *)
+Theorem C03_unprefixed_nist_source_any_target : forall c p b D key rgt, In (p, b, D, key, rgt) unprefixed_sources ->
+  forall t kt ct, parse (reg c) t = Ok (kt, ct) -> ~ kt == 0 -> cdim (reg c) ct = D ->
+  exists v pub mr, conv_ctx c (UAtom p b) t = Ok v /\ codata_value c key = Some pub
+     /\ expr_md (reg c) (side_expr rgt) = Some (mr, D) /\ v == pub * mr / (kt * cmag (reg c) ct).
+Proof.
+  intros c p b D key rgt Hin t kt ct Ht Hk HD.
+  pose proof (proj1 (forallb_forall _ _) (unprefixed_all_ok c) _ Hin) as H.
+  destruct (unpref_spec c p b D key rgt H t kt ct Ht Hk HD) as [v [pub [mr [dr [Cv [Cp [Em [Ed Ev]]]]]]]]. subst dr.
+  exists v, pub, mr. auto.
+Qed.
+
+(** ** Round trips across the bridges *)
+Definition rt_tol (c : cctx) : Q := match c with C2014 => 4 # 10 ^ 8 | C2018 => 1 # 10 ^ 8 end.
+
+(** every published pair of opposite relationships multiplies to 1 (to twice the precision of a single one) *)
+Theorem C03_published_roundtrip : forall c l r k k', In (l, r, k) (rel_rows c) -> In (r, l, k') (rel_rows c) ->
+  exists p p', codata_value c k = Some p /\ codata_value c k' = Some p' /\ Qabs (p * p' - 1) <= rt_tol c * Qabs 1.
+Proof. intros c. apply rt_all_ok_spec. destruct c; [exact (proj1 rt_2014) | exact (proj1 rt_2018)]. Qed.
+
+(** for ALL expressions a, b of the two dimensions of a named bridge that name no NIST unit: a -> b then b -> a gives 1 *)
+Theorem C03_default_route_roundtrip : forall c s d r x r' x', In (s, d, r, x) named_edges -> In (d, s, r', x') named_edges ->
+  forall a b ka ca kb cb,
+    parse (reg c) a = Ok (ka, ca) -> parse (reg c) b = Ok (kb, cb) -> ~ ka == 0 -> ~ kb == 0 ->
+    cdim (reg c) ca = s -> cdim (reg c) cb = d ->
+    find_nist_unit (nist c) ca = None -> find_nist_unit (nist c) cb = None ->
+    exists v w, conv_ctx c a b = Ok v /\ conv_ctx c b a = Ok w /\ Qabs (v * w - 1) <= rt_tol c * Qabs 1.
+Proof. intros c. apply default_route_roundtrip. destruct c; [exact (proj2 rt_2014) | exact (proj2 rt_2018)]. Qed.
+
+(** ** The glue of conversion_factor (context.py:278-331): str / Quantity arguments and functools.lru_cache *)
+
+(** the str entry point is the text model *)
+Theorem C03_str_entry_point_is_text_model : forall c s t, cf_pure c (AStr s) (AStr t) = conv_text c s t.
+Proof. reflexivity. Qed.
+
+(** a Quantity argument  k * units(e)  is the expression  k e  (so the prefactor laws above apply to Quantity arguments) *)
+Theorem C03_quantity_argument_is_prefactor : forall c k e k' e',
+  cf_pure c (AQty k e) (AQty k' e') = conv_ctx c (UMul (UNum k) e) (UMul (UNum k') e').
+Proof. reflexivity. Qed.
+
+(** lru_cache: for ANY history of calls on one context object, starting from any cache whose entries are right, every answer is
+    the answer of the uncached body — provided each call's key is [stable] (requests that the cache identifies have one answer) *)
+Theorem C03_cache_transparent : forall c calls ch, cache_ok c ch ->
+  (forall a b, In (a, b) calls -> stable c a b) ->
+  Forall2 res_eq (run c ch calls) (map (fun p => cf_pure c (fst p) (snd p)) calls).
+Proof. exact cache_transparent. Qed.
+
+(** ... which holds for EVERY history of str arguments (keys are the texts themselves; maxsize and eviction do not matter) *)
+Theorem C03_cache_transparent_str_history : forall c (texts : list (string * string)),
+  Forall2 res_eq (run c [] (map (fun p => (AStr (fst p), AStr (snd p))) texts)) (map (fun p => conv_text c (fst p) (snd p)) texts).
+Proof.
+  intros c texts.
+  pose proof (cache_transparent c (map (fun p => (AStr (fst p), AStr (snd p))) texts) [] (cache_ok_nil c)) as H.
+  rewrite map_map in H. cbn [fst snd] in H. apply H.
+  intros a b Hin. apply in_map_iff in Hin. destruct Hin as [[s t] [E _]]. injection E as <- <-. apply stable_str.
+Qed.
+
+(** ... and for str or Quantity arguments of one dimension: pint identifies Quantities by magnitude and units after
+    to_base_units(), and such requests have the same answer (the SI ratio) *)
+Theorem C03_cache_stable_same_dimension : forall c a b ea eb ka ca kb cb,
+  arg_expr a = inr ea -> arg_expr b = inr eb -> parse (reg c) ea = Ok (ka, ca) -> parse (reg c) eb = Ok (kb, cb) -> ~ kb == 0 ->
+  edim (reg c) ea = edim (reg c) eb -> stable c a b.
+Proof. exact stable_same_dimension. Qed.
+
+(** Across a bridge with Quantity arguments the cache is NOT transparent: Quantity(1 MHz) and Quantity(1e6 Hz) are the same key,
+    MHz -> hartree is scaled twice (known finding), and the UNPREFIXED request asked second gets the poisoned entry: 1e6 times
+    the right answer.  Replayed on /repo: c.conversion_factor(c.Quantity("1 MHz"), "hartree"); c.conversion_factor(c.Quantity("1e6 Hz"), "hartree"). *)
+Theorem C03_cache_poisoned_refuted :
+  exists v w, run C2014 [] [(AQty 1 (UAtom "mega" "hertz"), AStr "hartree"); (AQty 1000000 (UAtom "" "hertz"), AStr "hartree")] = [Ok v; Ok v]
+    /\ cf_pure C2014 (AQty 1000000 (UAtom "" "hertz")) (AStr "hartree") = Ok w /\ v == 1000000 * w.
+Proof. exact cache_poisoned_witness. Qed.
+
 (** ** Reading text (Model/UnitsText.v): precedence, juxtaposition, symbol/alias/prefix resolution — pinned instances; the
     general tie is the text stream of the correspondence (the model reads the same strings as the implementation). *)
 Theorem C03_text_reader_examples :
@@ -421,4 +536,15 @@ Print Assumptions C03_unprefixed_bridge_examples.
 Print Assumptions C03_default_route_bridge.
 Print Assumptions C03_bridge_constants_are_physics.
 Print Assumptions C03_all_named_bridges_covered.
+Print Assumptions C03_linear_source_all_paths.
+Print Assumptions C03_linear_target_all_paths.
+Print Assumptions C03_unprefixed_nist_source_any_target.
+Print Assumptions C03_published_roundtrip.
+Print Assumptions C03_default_route_roundtrip.
+Print Assumptions C03_str_entry_point_is_text_model.
+Print Assumptions C03_quantity_argument_is_prefactor.
+Print Assumptions C03_cache_transparent.
+Print Assumptions C03_cache_transparent_str_history.
+Print Assumptions C03_cache_stable_same_dimension.
+Print Assumptions C03_cache_poisoned_refuted.
 Print Assumptions C03_text_reader_examples.
